@@ -1,42 +1,68 @@
 import JunoModel.C10.Proofs
 /-!
 C10 — Merkle proofs verify against the root and cannot be forged by tampering.
-Property theorems only (lemmas are in `Proofs.lean`).  Every theorem here is an obligation listed in
-evidence/C10.json with its axioms.
+Property theorems only (lemmas are in `Proofs.lean`; witnesses of defects that are fixed in /repo are
+regression material and live in `Regress.lean`, not here).  Every theorem here is an obligation listed
+in evidence/C10.json with its axioms.
 
-Setting.  `A : HashAlg H` is the hash primitive; `Ideal A` says binary and edge node hashes are
-injective, never collide with each other and never equal the zero felt; `Acyclic A` says there are
-no hash cycles.  Both hold in the free term algebra (`freeAlg_is_ideal`).  `Tree`/`Trie` is what
-both tries denote, `Tree.proveNodes` transcribes the two provers (`legacy = true`: `core/trie`,
-`false`: `core/trie2`), `verifyL` = `trie.VerifyProof`, `verify2` = `trie2.VerifyProof`.  `cfg : Cfg`
-selects the variant of the verifiers: `Cfg.asIs` is the code at the pinned commit, `Cfg.strict` the
-code with proposed-fixes/C10-verifyproof-empty-trie.diff and C10-trie2-verifyproof-*.diff applied; the harness probes the real code and
-records which variant the correspondence was run against.  Heights are `0 < n < 256` (path
-positions are `uint8` in Go; juno uses 251).
+Setting.  `A : HashAlg H` is the hash primitive.  `Ideal A`: binary and edge node hashes are injective,
+never zero, and never equal to each other EXCEPT `bin c 0 = edge c []`, which holds structurally in
+felt arithmetic (`H(c,0) + 0`); honest tries have no empty edge path (`WF`) and no zero child (`NZ`),
+the verifiers do accept such nodes, so the exception is part of the hypothesis.  `Ideal` holds in the
+free term algebra and in `feltLikeAlg` (free algebra with `ofNat 0 = zero`, `x + 0 = x`, where the
+collision exists): `hash_hypotheses_satisfiable`.  `Acyclic A`: no hash cycles.
+`Tree`/`Trie`: what both tries denote; `WF t n`: leaves exactly at depth n, no empty edge path; `NZ`: no
+leaf holds zero; both hold for the trie of any key/value set with non-zero values
+(`trie_of_entries_wf_nz`), which the real tries are compared against node for node.
+`Tree.proveNodes` = the two provers, `verifyL` = `trie.VerifyProof`, `verify2` = `trie2.VerifyProof`.
+A proof node's child has one of FIVE shapes (`Shape`): hash node, value node, nil, embedded node with /
+without cached hash — all five arms of the Go switch.  `cfg : Cfg` is the variant of the verifiers the
+harness finds in the tree under test: `Cfg.at997852f` = /repo today, `Cfg.strict` = with
+proposed-fixes/C10-verifyproof-walk-collapsed-node-and-guards.diff.  Range proofs (trie2):
+`verifySingle`, `verifyEmpty`, `verifyAll`, `verifyMulti` with variant `RCfg` (`RCfg.strict` = /repo
+today).  Heights `0 < n < 256` (path positions are `uint8`; juno uses 251).  Keys are bit paths: the
+conversion felt ↦ path (`SetFelt(251, ·)`, drops bit 251) is outside these statements, see notes.
 -/
 namespace Juno.C10.Props
 open Juno.C10
 
 variable {H : Type} [DecidableEq H]
 
+/-! ## The hypotheses are satisfiable -/
+
+theorem hash_hypotheses_satisfiable :
+    Ideal freeAlg ∧ Acyclic freeAlg ∧ Ideal feltLikeAlg ∧
+    (∀ c, feltLikeAlg.bin c feltLikeAlg.zero = feltLikeAlg.edge c []) :=
+  ⟨freeAlg_ideal, freeAlg_acyclic, feltLikeAlg_ideal, feltLikeAlg_collision⟩
+
+/-- `WF` / `NZ` are not assumptions about some abstract tree: the trie of ANY key/value set with keys
+of length `n` and non-zero values is well-formed of height `n`, holds no zero leaf, and holds exactly
+the entries (last value of a repeated key, zero for an unlisted key). -/
+theorem trie_of_entries_wf_nz (A : HashAlg H) (n : Nat) (kvs : List (Path × H))
+    (hv : ∀ kv ∈ kvs, kv.2 ≠ A.zero) (t : Tree H) (h : build n kvs = some t) : WF t n ∧ t.NZ A :=
+  ⟨build_wf n kvs t h, build_nz n kvs t hv h⟩
+
+theorem trie_of_entries_get (A : HashAlg H) (n : Nat) (kvs : List (Path × H))
+    (hl : ∀ kv ∈ kvs, kv.1.length = n) (k : Path) (hk : k.length = n) :
+    Trie.get A (build n kvs) k = (lastVal kvs k).getD A.zero :=
+  get_build n kvs k hl hk
+
 /-! ## Completeness: the proof the node produces verifies to the actual value or absence -/
 
-/-- `trie.VerifyProof` accepts the proof produced by either prover for ANY key — present, absent
-with the divergence inside an edge / at a binary node / at the root / at a leaf — of any non-empty
-trie, and returns the key's value (zero = absent).  More generally it accepts every
-self-consistent node set that contains the proof (RPC merges the proofs of several keys into one
-set).  Holds for every variant `cfg`. -/
+/-- `trie.VerifyProof`, every variant: returns `get t k` for ANY key (present; absent with the divergence
+inside an edge / at a binary node / at the root / at the last bit) of any non-empty trie, on every
+self-consistent node set that contains the prover's nodes (either prover; RPC merges the proofs of
+several keys into one set). -/
 theorem proof_complete_legacy (A : HashAlg H) (hI : Ideal A) (cfg : Cfg) (t : Tree H) (n : Nat)
-    (hwf : WF t n) (hn : 0 < n) (h256 : n < 256) (k : Path) (hk : k.length = n)
+    (hwf : WF t n) (hnz : t.NZ A) (hn : 0 < n) (h256 : n < 256) (k : Path) (hk : k.length = n)
     (legacy cached : Bool) (P : PSet H)
     (hsub : ∀ nd ∈ t.proveNodes A legacy cached k, (nd.hash A, nd) ∈ P)
     (hcons : ∀ e ∈ P, e.1 = e.2.hash A) :
     verifyL A cfg (t.hash A) k P = Res.ok (t.get A k) :=
-  legacy_complete_tree hI cfg t n hwf hn h256 k hk legacy cached P hsub hcons
+  legacy_complete_tree hI cfg t n hwf hnz hn h256 k hk legacy cached P hsub hcons
 
-/-- `trie2.VerifyProof` accepts every node set that returns the honest proof nodes for their
-hashes, for any key of any non-empty trie (no assumption on the hash needed beyond `Ideal` for the
-zero-root test), for every variant `cfg`, with or without cached hash flags in the nodes. -/
+/-- `trie2.VerifyProof`, every variant, with or without cached hash flags: returns `get t k` on any node
+set that returns the honest proof nodes for their hashes. -/
 theorem proof_complete_trie2 (A : HashAlg H) (hI : Ideal A) (cfg : Cfg) (t : Tree H) (n : Nat)
     (hwf : WF t n) (hn : 0 < n) (h256 : n < 256) (k : Path) (hk : k.length = n)
     (legacy cached : Bool) (P : PSet H)
@@ -44,114 +70,61 @@ theorem proof_complete_trie2 (A : HashAlg H) (hI : Ideal A) (cfg : Cfg) (t : Tre
     verify2 A cfg (t.hash A) k P = Res.ok (t.get A k) :=
   trie2_complete_tree hI cfg t n hwf hn h256 k hk legacy cached P hlook
 
-/-- …in particular the node set `Prove` returns (no hash cycles ⇒ the set returns each honest node
-for its hash). -/
-theorem proof_complete_trie2_exact (A : HashAlg H) (hI : Ideal A) (hac : Acyclic A) (cfg : Cfg)
-    (t : Tree H) (n : Nat) (hwf : WF t n) (hn : 0 < n) (h256 : n < 256) (k : Path)
-    (hk : k.length = n) (cached : Bool) :
-    verify2 A cfg (t.hash A) k (Trie.prove A false cached (some t) k) = Res.ok (t.get A k) :=
-  trie2_complete_tree hI cfg t n hwf hn h256 k hk false cached _ (honest_lookup hac false cached t k)
-
-/-- Full strength (empty trie included) for the repaired verifiers: for every trie, empty or not,
-and every key, both verifiers accept the proof the prover returns and report the actual value. -/
+/-- Both verifiers of /repo today (`zeroRoot`), every trie EMPTY OR NOT, every key: the set the prover
+returns is accepted and gives the actual value. -/
 theorem proof_complete (A : HashAlg H) (hI : Ideal A) (hac : Acyclic A) (cfg : Cfg)
-    (hz : cfg.zeroRoot = true) (t : Trie H) (n : Nat) (hwf : Trie.WF t n) (hn : 0 < n) (h256 : n < 256)
-    (k : Path) (hk : k.length = n) (cached : Bool) :
+    (hz : cfg.zeroRoot = true) (t : Trie H) (n : Nat) (hwf : Trie.WF t n) (hnz : Trie.NZ A t)
+    (hn : 0 < n) (h256 : n < 256) (k : Path) (hk : k.length = n) (cached : Bool) :
     verifyL A cfg (t.hash A) k (t.prove A true cached k) = Res.ok (t.get A k) ∧
     verify2 A cfg (t.hash A) k (t.prove A false cached k) = Res.ok (t.get A k) := by
   cases t with
   | none => simp [Trie.hash, Trie.get, verifyL, verify2, hz]
   | some s =>
-    exact ⟨legacy_complete_tree hI cfg s n hwf hn h256 k hk true cached _
+    exact ⟨legacy_complete_tree hI cfg s n hwf hnz hn h256 k hk true cached _
         (fun nd hnd => List.mem_map.mpr ⟨nd, hnd, rfl⟩) (toPSet_consistent _),
       trie2_complete_tree hI cfg s n hwf hn h256 k hk false cached _
         (honest_lookup hac false cached s k)⟩
 
-/- The same statement for the code as it is (`cfg.zeroRoot = false`) is FALSE on the empty trie;
-what holds is `proof_complete_partial` (non-empty tries) and the negation below. -/
+/-! ## Soundness: whatever node set is offered, an accepted value is the actual one
 
-/-- Code as it is: completeness for every NON-EMPTY trie (missing: the empty trie). -/
-theorem proof_complete_partial (A : HashAlg H) (hI : Ideal A) (hac : Acyclic A) (t : Tree H)
-    (n : Nat) (hwf : WF t n) (hn : 0 < n) (h256 : n < 256) (k : Path) (hk : k.length = n)
-    (cached : Bool) :
-    verifyL A Cfg.asIs (t.hash A) k (Trie.prove A true cached (some t) k) = Res.ok (t.get A k) ∧
-    verify2 A Cfg.asIs (t.hash A) k (Trie.prove A false cached (some t) k) = Res.ok (t.get A k) :=
-  ⟨legacy_complete_tree hI _ t n hwf hn h256 k hk true cached _
-      (fun nd hnd => List.mem_map.mpr ⟨nd, hnd, rfl⟩) (toPSet_consistent _),
-    trie2_complete_tree hI _ t n hwf hn h256 k hk false cached _ (honest_lookup hac false cached t k)⟩
+The property text says an altered proof "does not verify".  What holds (and what is proved) is: it
+fails OR still establishes the trie's actual content for the queried key — it never confirms anything
+else (a third of all single-field alterations still verify to the truth, e.g. of an unused node). -/
 
-/-- DEFECT (known finding `*:honest-empty-trie:rejected-by-own-verifier`): with the code as it is
-both verifiers reject the (empty) proof of the empty trie for every key, in every hash algebra. -/
-theorem empty_trie_proof_rejected (A : HashAlg H) (k : Path) (legacy cached : Bool) :
-    verifyL A Cfg.asIs (Trie.hash A none) k (Trie.prove A legacy cached none k) = Res.notFound ∧
-    verify2 A Cfg.asIs (Trie.hash A none) k (Trie.prove A legacy cached none k) = Res.notFound := by
-  simp [verifyL, verify2, Cfg.asIs, Trie.prove, verifyFuel, verifyLAux, verify2Aux, PSet.get]
-
-/-! ## Soundness: whatever node set is offered, an accepted value is the actual one -/
-
-/-- `trie.VerifyProof`, every variant: if ANY node set makes the verifier return `v` for key `k`
-against root `r`, then every trie of height `n` with root `r` (empty or not) holds exactly `v` at
-`k` (`v = zero` ⇔ absent). -/
+/-- `trie.VerifyProof`, every variant, ANY node set: an accepted value is the value every trie of
+height n with that root (empty or not) holds at `k` (zero ⇔ absent). -/
 theorem proof_sound_legacy (A : HashAlg H) (hI : Ideal A) (cfg : Cfg) (n : Nat) (hn : 0 < n)
     (h256 : n < 256) (r : H) (k : Path) (hk : k.length = n) (P : PSet H) (v : H)
     (h : verifyL A cfg r k P = Res.ok v) :
-    ∀ t : Trie H, Trie.WF t n → t.hash A = r → t.get A k = v := by
-  intro t hwf hr
+    ∀ t : Trie H, Trie.WF t n → Trie.NZ A t → t.hash A = r → t.get A k = v := by
+  intro t hwf hnz hr
   subst hr
-  exact (legacy_sound hI cfg t n hwf hn h256 k hk P v h).symm
+  exact (legacy_sound hI cfg t n hwf hnz hn h256 k hk P v h).symm
 
-/-- `trie2.VerifyProof`, repaired variant (`Cfg.strict`): sound against every node set, whatever
-the Go types of the children and whatever cached hash flags the nodes carry. -/
+/-- `trie2.VerifyProof` with the walk on the collapsed copy (`Cfg.strict`, the pending diff): sound
+against EVERY node set — any of the five child shapes, any cached flags. -/
 theorem proof_sound_trie2 (A : HashAlg H) (hI : Ideal A) (n : Nat) (hn : 0 < n) (r : H) (k : Path)
     (hk : k.length = n) (P : PSet H) (v : H) (h : verify2 A Cfg.strict r k P = Res.ok v) :
-    ∀ t : Trie H, Trie.WF t n → t.hash A = r → t.get A k = v := by
-  intro t hwf hr
+    ∀ t : Trie H, Trie.WF t n → Trie.NZ A t → t.hash A = r → t.get A k = v := by
+  intro t hwf hnz hr
   subst hr
-  exact (trie2_sound hI Cfg.strict t n hwf hn k hk P (by simp [Cfg.strict]) (by simp [Cfg.strict])
-    v h).symm
+  exact (trie2_sound hI Cfg.strict t n hwf hnz hn k hk P (by simp [Cfg.strict]) (by simp [Cfg.strict])
+    (Or.inl rfl) v h).symm
 
-/-- `trie2.VerifyProof`, any variant, in particular the code as it is: sound against node sets in
-which no node carries a cached hash flag (if the variant trusts the flag) and no child is typed as
-a value node (if the variant lets a value node end the walk) — i.e. what a decoder of the wire
-format (felts only, as in the RPC response) produces.  Missing for `Cfg.asIs`: node sets with
-cached flags or value-typed children; `cached_hash_forgery` and `value_retype_forgery` show that
-the hypotheses cannot be dropped. -/
+/-- PARTIAL — `trie2.VerifyProof` of /repo today (`Cfg.at997852f`) and every other variant: sound on
+node sets that meet the side conditions of the variant; today that is: NO EMBEDDED child node (what
+`Prove` returns and what a wire decoder builds).  Missing: sets with embedded children — see
+`embedded_child_forgery` below. -/
 theorem proof_sound_trie2_partial (A : HashAlg H) (hI : Ideal A) (cfg : Cfg) (n : Nat) (hn : 0 < n)
     (r : H) (k : Path) (hk : k.length = n) (P : PSet H)
     (hcache : cfg.trustCache = true → ∀ e ∈ P, e.2.cache = none)
-    (hval : cfg.earlyValue = true → ∀ e ∈ P, e.2.noValue) (v : H)
+    (hval : cfg.earlyValue = true → ∀ e ∈ P, e.2.noValue)
+    (hemb : cfg.walkCollapsed = true ∨ ∀ e ∈ P, e.2.noEmb) (v : H)
     (h : verify2 A cfg r k P = Res.ok v) :
-    ∀ t : Trie H, Trie.WF t n → t.hash A = r → t.get A k = v := by
-  intro t hwf hr
+    ∀ t : Trie H, Trie.WF t n → Trie.NZ A t → t.hash A = r → t.get A k = v := by
+  intro t hwf hnz hr
   subst hr
-  exact (trie2_sound hI cfg t n hwf hn k hk P hcache hval v h).symm
-
-/-! ## Tampering -/
-
-/-- Altering a node, the claimed value or the key: whatever is done to the node set and whichever
-key it is offered for, the verifier fails or still reports the trie's actual content for that key —
-it never confirms a value `v` the trie does not hold. -/
-theorem tamper_rejected (A : HashAlg H) (hI : Ideal A) (cfg : Cfg) (t : Trie H) (n : Nat)
-    (hwf : Trie.WF t n) (hn : 0 < n) (h256 : n < 256) (k' : Path) (hk : k'.length = n) (P' : PSet H)
-    (v : H) (hv : v ≠ t.get A k') :
-    verifyL A cfg (t.hash A) k' P' ≠ Res.ok v ∧ verify2 A Cfg.strict (t.hash A) k' P' ≠ Res.ok v :=
-  ⟨fun h => hv (legacy_sound hI cfg t n hwf hn h256 k' hk P' v h),
-   fun h => hv (trie2_sound hI Cfg.strict t n hwf hn k' hk P' (by simp [Cfg.strict])
-     (by simp [Cfg.strict]) v h)⟩
-
-/-- Two node sets accepted for the same root and key give the same answer: an altered proof that
-still verifies has not changed what is proved. -/
-theorem tamper_cannot_change_result (A : HashAlg H) (hI : Ideal A) (cfg : Cfg) (t : Trie H) (n : Nat)
-    (hwf : Trie.WF t n) (hn : 0 < n) (h256 : n < 256) (k : Path) (hk : k.length = n) (P P' : PSet H)
-    (v v' : H) (h : verifyL A cfg (t.hash A) k P = Res.ok v)
-    (h' : verifyL A cfg (t.hash A) k P' = Res.ok v') : v = v' :=
-  (legacy_sound hI cfg t n hwf hn h256 k hk P v h).trans
-    (legacy_sound hI cfg t n hwf hn h256 k hk P' v' h').symm
-
-/-! ## Non-vacuity and the defects of `trie2.VerifyProof` as it is, on a concrete trie -/
-
-/-- The hypotheses on the hash are satisfiable: the free term algebra is ideal and acyclic. -/
-theorem freeAlg_is_ideal : Ideal freeAlg ∧ Acyclic freeAlg := ⟨freeAlg_ideal, freeAlg_acyclic⟩
+  exact (trie2_sound hI cfg t n hwf hnz hn k hk P hcache hval hemb v h).symm
 
 /-- height 3: 001 ↦ 7 (edge of length 2 under the root), 101 ↦ 5, 110 ↦ 8, 111 ↦ 9 -/
 def exTree : Tree HTerm :=
@@ -162,69 +135,107 @@ example : WF exTree 3 :=
   .bin (.edge (p := [false, true]) (by simp) (.leaf _))
     (.bin (.edge (p := [true]) (by simp) (.leaf _)) (.bin (.leaf _) (.leaf _)))
 
+/-- the honest proof of 110 (no cached flags) in which the root's right child — a hash node — is given
+as the EMBEDDED node it stands for, without cached hash; every node still hashes to its set key -/
+def forgedEmbedded : PSet HTerm :=
+  match Trie.prove freeAlg false false (some exTree) [true, true, false] with
+  | (h, .bin l r c) :: rest => (h, .bin l ⟨.embPlain, r.h⟩ c) :: rest
+  | p => p
+
+/-- DEFECT of /repo today (known finding `trie2:embedded-child-without-cached-hash:accepted`): the hash
+check runs on the collapsed copy, the walk on the node as given; the embedded child is stepped over and
+the root node is entered again one level too deep, and again, until the shortened key leads to a hash
+child: key 110 holds 8; the verifier of today returns, without error, the hash of the edge node above
+key 001.  (On the 251-bit tries of the harness the same construction makes a key holding 3 verify to
+5 and an absent key verify to 5: known finding replays.)  With the walk on the collapsed copy the true
+value is returned. -/
+theorem embedded_child_forgery :
+    (∀ e ∈ forgedEmbedded, e.1 = e.2.hash freeAlg) ∧
+    verify2 freeAlg Cfg.at997852f (exTree.hash freeAlg) [true, true, false] forgedEmbedded =
+      .ok ((Tree.edge [false, true] (.leaf (.felt 7))).hash freeAlg) ∧
+    exTree.get freeAlg [true, true, false] = .felt 8 ∧
+    verify2 freeAlg Cfg.strict (exTree.hash freeAlg) [true, true, false] forgedEmbedded = .ok (.felt 8) := by
+  decide
+
+/-- Altering a node, the claimed value or the key (as a bit path): whatever is done to the node set and
+whichever key it is offered for, no verifier (legacy: every variant; trie2: collapsed walk) confirms a
+value `v` the trie does not hold at that key. -/
+theorem tamper_rejected (A : HashAlg H) (hI : Ideal A) (cfg : Cfg) (t : Trie H) (n : Nat)
+    (hwf : Trie.WF t n) (hnz : Trie.NZ A t) (hn : 0 < n) (h256 : n < 256) (k' : Path)
+    (hk : k'.length = n) (P' : PSet H) (v : H) (hv : v ≠ t.get A k') :
+    verifyL A cfg (t.hash A) k' P' ≠ Res.ok v ∧ verify2 A Cfg.strict (t.hash A) k' P' ≠ Res.ok v :=
+  ⟨fun h => hv (legacy_sound hI cfg t n hwf hnz hn h256 k' hk P' v h),
+   fun h => hv (trie2_sound hI Cfg.strict t n hwf hnz hn k' hk P' (by simp [Cfg.strict])
+     (by simp [Cfg.strict]) (Or.inl rfl) v h)⟩
+
 -- honest proofs of present keys and of absent keys (divergence inside the edge, at the last bit)
-example : verifyL freeAlg Cfg.asIs (exTree.hash freeAlg) [true, true, false]
+example : verifyL freeAlg Cfg.at997852f (exTree.hash freeAlg) [true, true, false]
     (Trie.prove freeAlg true false (some exTree) [true, true, false]) = .ok (.felt 8) := by decide
-example : verify2 freeAlg Cfg.asIs (exTree.hash freeAlg) [false, false, true]
+example : verify2 freeAlg Cfg.at997852f (exTree.hash freeAlg) [false, false, true]
     (Trie.prove freeAlg false true (some exTree) [false, false, true]) = .ok (.felt 7) := by decide
 example : verify2 freeAlg Cfg.strict (exTree.hash freeAlg) [false, true, true]
     (Trie.prove freeAlg false true (some exTree) [false, true, true]) = .ok (.felt 0) := by decide
-example : verifyL freeAlg Cfg.asIs (exTree.hash freeAlg) [true, false, false]
+example : verifyL freeAlg Cfg.strict (exTree.hash freeAlg) [true, false, false]
     (Trie.prove freeAlg true false (some exTree) [true, false, false]) = .ok (.felt 0) := by decide
 
-/-- the proof of 110 with the value in the last node replaced by 666, cached hash flag kept -/
-def forgedCached : PSet HTerm :=
-  match Trie.prove freeAlg false true (some exTree) [true, true, false] with
-  | [a, b, (h, .bin _ r c)] => [a, b, (h, .bin ⟨.value, .felt 666⟩ r c)]
-  | p => p
+/-! ## Storage proofs over RPC: slot ∈ storage trie ∈ contract leaf ∈ contracts trie ∈ state root
 
-/-- DEFECT (known finding `trie2:altered-node-with-stale-cached-hash:accepted`): the code as it is
-accepts the altered proof and reports the forged value. -/
-theorem cached_hash_forgery :
-    verify2 freeAlg Cfg.asIs (exTree.hash freeAlg) [true, true, false] forgedCached = .ok (.felt 666) ∧
-    exTree.get freeAlg [true, true, false] = .felt 8 ∧
-    verify2 freeAlg Cfg.strict (exTree.hash freeAlg) [true, true, false] forgedCached = .mismatch := by
-  decide
+`commit` is the state commitment of the block's protocol version as a function of the two roots
+(`Poseidon("STARKNET_STATE_V0", contracts, classes)`, or the contracts root alone before 0.14.0 with
+an empty classes trie); its injectivity is the hash assumption.  The formulas themselves
+(`contractLeaf`, the commitment, the class leaf) are tied to juno by the RPC section of the harness,
+which recomputes them from the abstract state. -/
 
-/-- the proof of 110 without cached flags, the on-path child of the root re-typed as a value node -/
-def forgedRetyped : PSet HTerm :=
-  match Trie.prove freeAlg false false (some exTree) [true, true, false] with
-  | (h, .bin l r c) :: rest => (h, .bin l ⟨.value, r.h⟩ c) :: rest
-  | p => p
+/-- What a client that checks a `starknet_getStorageProof` response with an independent verifier has
+established: if the roots of `global_roots` give the block's state root, the contract's proof verifies
+to the leaf rebuilt from `contract_leaves_data`, and the slot's proof verifies against the leaf data's
+storage root, then in EVERY state with that state root the contract has that class hash and nonce and
+the slot holds that value (zero = unset). -/
+theorem rpc_storage_proof_sound (A : HashAlg H) (hI : Ideal A) (commit : H → H → H)
+    (hcommit : ∀ a b a' b', commit a b = commit a' b' → a = a' ∧ b = b')
+    (cfg : Cfg) (n : Nat) (hn : 0 < n) (h256 : n < 256)
+    -- the state: contracts trie, classes root, and the contract's own class / nonce / storage trie
+    (contracts storage : Trie H) (classesRootS clsS nonceS : H) (addr slot : Path)
+    (hwc : Trie.WF contracts n) (hnc : Trie.NZ A contracts) (hws : Trie.WF storage n)
+    (hns : Trie.NZ A storage) (ha : addr.length = n) (hs : slot.length = n)
+    (hleafS : contracts.get A addr = contractLeaf A clsS (storage.hash A) nonceS)
+    -- the response
+    (contractsRoot classesRoot cls sroot nonce v : H) (Pc Ps : PSet H)
+    (hroots : commit contractsRoot classesRoot = commit (contracts.hash A) classesRootS)
+    (hcp : verifyL A cfg contractsRoot addr Pc = Res.ok (contractLeaf A cls sroot nonce))
+    (hsp : verifyL A cfg sroot slot Ps = Res.ok v) :
+    cls = clsS ∧ nonce = nonceS ∧ storage.get A slot = v := by
+  obtain ⟨hcr, _⟩ := hcommit _ _ _ _ hroots
+  subst hcr
+  have h1 := legacy_sound hI cfg contracts n hwc hnc hn h256 addr ha Pc _ hcp
+  rw [hleafS] at h1
+  obtain ⟨e1, e2, e3⟩ := contractLeaf_inj hI h1
+  subst e2
+  have h2 := legacy_sound hI cfg storage n hws hns hn h256 slot hs Ps v hsp
+  exact ⟨e1, e3, h2.symm⟩
 
-/-- DEFECT (known finding `trie2:hash-child-retyped-as-value:accepted`): every node still hashes to
-its key, yet the code as it is returns the hash of an inner node as the value of key 110. -/
-theorem value_retype_forgery :
-    (∀ e ∈ forgedRetyped, e.1 = e.2.hash freeAlg) ∧
-    verify2 freeAlg Cfg.asIs (exTree.hash freeAlg) [true, true, false] forgedRetyped =
-      .ok ((Tree.bin (.edge [true] (.leaf (.felt 5))) (.bin (.leaf (.felt 8)) (.leaf (.felt 9)))).hash freeAlg) ∧
-    exTree.get freeAlg [true, true, false] = .felt 8 ∧
-    verify2 freeAlg Cfg.strict (exTree.hash freeAlg) [true, true, false] forgedRetyped = .earlyValue := by
-  decide
+/-! ## Range proofs (trie2; `RCfg.strict` = /repo since 997852f)
 
-/-! ## Range proofs (trie2, the single-element and the empty-range case only)
+`verifySingle` / `verifyEmpty` transcribe `verifySingleElementProof` / `verifyEmptyRangeProof`
+(`proofToPath` = `resolveAux`, `hasRightElement` = `hasRight`); `verifyAll` is the no-proof case;
+`verifyMulti` is `verifyRangeWithProof`: `resolvePT` transcribes `proofToPath`, `hasRightPT`
+`hasRightElement`, and `fill` is an extensional SPECIFICATION (not a transcription) of
+`unsetInternal` + `Trie.Update` + `Hash`, tied to the code by comparing outcomes on every claim of the
+exhaustive small-space section.  Not proved: completeness of the empty / multi / no-proof cases
+(needs canonicity `build (entries t) = t`).  The legacy trie's `VerifyRangeProof` is not modelled
+(oracle only; unsound, see the known findings). -/
 
-`verifySingle` / `verifyEmpty` transcribe `verifySingleElementProof` / `verifyEmptyRangeProof` with
-`proofToPath` and `hasRightElement`; `RCfg.asIs` is the code at the pinned commit, `RCfg.strict` the
-code with proposed-fixes/C10-trie2-rangeproof-*.diff.  The general case (two edge paths,
-`unsetInternal`, re-insertion) and the legacy trie's range proofs are not modelled: `range_complete`
-and `range_sound` of the plan are NOT proved; what follows is the partial result. -/
-
-/-- Repaired variant, single element, value: if `VerifyRangeProof(root, k, [k], [v], P)` succeeds for
-ANY node set P then every trie with that root (empty or not) holds `v` at `k`. -/
+/-- Single element, value: accepted for ANY node set ⇒ every trie with that root holds `v` at `k`. -/
 theorem range_single_sound (A : HashAlg H) (hI : Ideal A) (rc : RCfg)
     (hch : rc.checkHash = true) (hev : rc.earlyValue = false) (hlh : rc.leafHash = true)
     (n : Nat) (hn : 0 < n) (r : H) (k : Path) (hk : k.length = n) (v : H) (P : PSet H) (more : Bool)
     (h : verifySingle A rc r k v P = RRes.ok more) :
-    ∀ t : Trie H, Trie.WF t n → t.hash A = r → t.get A k = v := by
-  intro t hwf hr
+    ∀ t : Trie H, Trie.WF t n → Trie.NZ A t → t.hash A = r → t.get A k = v := by
+  intro t hwf hnz hr
   subst hr
-  exact single_sound hI rc hch hev hlh t n hwf hn k hk v P more h
+  exact single_sound hI rc hch hev hlh t n hwf hnz hn k hk v P more h
 
-/-- …and the returned `more` flag is exact: it is true iff the trie has a key greater than `k`
-(`GtIn t n k` = some key of length n present in `t` is lexicographically greater). `NZ`: no leaf of
-the trie holds zero (tries never store zero). This is what `VerifyRangeProof` guarantees about
-`hasMore` in the single-element case. -/
+/-- …and `more` is exact: true iff the trie has a key greater than `k`. -/
 theorem range_single_more (A : HashAlg H) (hI : Ideal A) (rc : RCfg)
     (hch : rc.checkHash = true) (hev : rc.earlyValue = false) (hlh : rc.leafHash = true)
     (t : Tree H) (n : Nat) (hwf : WF t n) (hnz : t.NZ A) (hn : 0 < n) (k : Path) (hk : k.length = n)
@@ -232,9 +243,18 @@ theorem range_single_more (A : HashAlg H) (hI : Ideal A) (rc : RCfg)
     (more = true ↔ GtIn t n k) :=
   single_more hI rc hch hev hlh t n hwf hnz hn k hk v P more h
 
-/-- Repaired variant, empty range, FULL: if `VerifyRangeProof(root, first, nil, nil, P)` succeeds for
-any node set P then the flag is `false` and every key of every (non-empty) trie with that root is
-smaller than `first` — the trie has no entry at or right of `first`. -/
+/-- Completeness, single element (any variant, either prover's node set): the range proof
+`GetRangeProof(k, k)` of a key that is in the trie is accepted for the key's value. -/
+theorem range_single_complete (A : HashAlg H) (rc : RCfg) (t : Tree H) (n : Nat) (hwf : WF t n)
+    (hn : 0 < n) (h256 : n < 256) (k : Path) (hk : k.length = n) (hhas : t.has k = true)
+    (hv : t.get A k ≠ A.zero) (legacy cached : Bool) (P : PSet H)
+    (hlook : ∀ nd ∈ t.proveNodes A legacy cached k, P.get (nd.hash A) = some nd) :
+    ∃ more, verifySingle A rc (t.hash A) k (t.get A k) P = RRes.ok more :=
+  single_complete rc t n hwf hn h256 k hk hhas hv legacy cached P hlook
+
+/-- Empty range, FULL: accepted for any node set ⇒ the flag is `false` and every key of every
+(non-empty) trie with that root is smaller than `first`; and the empty trie (root zero) is accepted
+for every `first` and every node set. -/
 theorem range_empty_sound (A : HashAlg H) (hI : Ideal A) (rc : RCfg)
     (hch : rc.checkHash = true) (hev : rc.earlyValue = false) (hlh : rc.leafHash = true)
     (t : Tree H) (n : Nat) (hwf : WF t n) (hnz : t.NZ A) (hn : 0 < n) (first : Path)
@@ -243,46 +263,34 @@ theorem range_empty_sound (A : HashAlg H) (hI : Ideal A) (rc : RCfg)
     more = false ∧ ∀ k', k'.length = n → t.has k' = true → pathLt k' first = true :=
   empty_no_key hI rc hch hev hlh t n hwf hnz hn first hk P more h
 
-/-- The empty trie (root zero): the repaired variant accepts the empty-range claim for every `first`
-and every node set; the code as it is rejects the honest (empty) proof — DEFECT, known finding
-`*:range:honest-empty-range-of-empty-trie:rejected`. -/
-theorem range_empty_trie (A : HashAlg H) (first : Path) (P : PSet H) :
-    verifyEmpty A RCfg.strict A.zero first P = RRes.ok false ∧
-    verifyEmpty A RCfg.asIs A.zero first [] = RRes.err := by
-  simp [verifyEmpty, RCfg.strict, RCfg.asIs, verifyFuel, resolveAux, PSet.get]
+theorem range_empty_trie_accepted (A : HashAlg H) (first : Path) (P : PSet H) :
+    verifyEmpty A RCfg.strict A.zero first P = RRes.ok false := by
+  simp [verifyEmpty, RCfg.strict]
 
-/-- Completeness, single element (any variant, either prover's node set): the range proof
-`GetRangeProof(k, k)` of a key that is in the trie is accepted for the key's value (and by
-`range_single_more` the flag it returns is the true one). -/
-theorem range_single_complete (A : HashAlg H) (rc : RCfg) (t : Tree H) (n : Nat) (hwf : WF t n)
-    (hn : 0 < n) (h256 : n < 256) (k : Path) (hk : k.length = n) (hhas : t.has k = true)
-    (hv : t.get A k ≠ A.zero) (legacy cached : Bool) (P : PSet H)
-    (hlook : ∀ nd ∈ t.proveNodes A legacy cached k, P.get (nd.hash A) = some nd) :
-    ∃ more, verifySingle A rc (t.hash A) k (t.get A k) P = RRes.ok more :=
-  single_complete rc t n hwf hn h256 k hk hhas hv legacy cached P hlook
-
-/-- RANGE SOUNDNESS, general case (two or more keys, or one key with `first` < key), for every
-variant in which `unset` clears the boundary leaf under a binary node (`unsetLeaf`, the repaired code),
-against ANY node set: if `VerifyRangeProof(root, first, keys, values, P)` succeeds then, in every trie `t`
-with that root, every key `k` of the interval `first ≤ k ≤ last` holds exactly what the claimed list
-gives it (`lastVal kvs k`, zero = not listed): nothing in the interval is left out, nothing listed there
-is wrong or invented. (Entries listed LEFT of `first` are not covered by this statement: the code accepts
-them when they are genuine entries on the resolved path; see notes.) -/
+/-- General case (two or more keys, or one key with `first` < key), every variant in which `unset`
+clears the boundary leaf under a binary node (/repo today), ANY node set: accepted ⇒ in every trie with
+that root
+* every key `k` with `first ≤ k ≤ last` holds exactly what the list gives it (`lastVal`, zero = not
+  listed): no gap, nothing wrong, nothing invented inside the interval;
+* EVERY listed entry, also one left of `first`, is an entry of the trie (a consumer that stores all
+  returned pairs stores only genuine ones). -/
 theorem range_sound (A : HashAlg H) (hI : Ideal A) (rc : RCfg) (hul : rc.unsetLeaf = true)
     (t : Tree H) (n : Nat) (hwf : WF t n) (first : Path) (hfl : first.length = n)
     (kvs : List (Path × H)) (hkl : ∀ kv ∈ kvs, kv.1.length = n) (P : PSet H) (more : Bool)
     (h : verifyMulti A rc (t.hash A) first kvs P = RRes.ok more) :
-    ∃ lastKV, kvs.getLast? = some lastKV ∧ pathLt first lastKV.1 = true ∧
+    (∃ lastKV, kvs.getLast? = some lastKV ∧ pathLt first lastKV.1 = true ∧
       ∀ k, k.length = n → (first = k ∨ pathLt first k = true) →
         (k = lastKV.1 ∨ pathLt k lastKV.1 = true) →
-        t.get A k = (lastVal kvs k).getD A.zero :=
-  multi_sound hI rc hul t n hwf first hfl kvs hkl P more h
+        t.get A k = (lastVal kvs k).getD A.zero) ∧
+    (∀ kv ∈ kvs, t.get A kv.1 = (lastVal kvs kv.1).getD A.zero) :=
+  ⟨multi_sound hI rc hul t n hwf first hfl kvs hkl P more h,
+   multi_listed_genuine hI rc hul t n hwf first hfl kvs hkl P more h⟩
 
-/-- …and the returned `more` flag is exact (repaired variant): `VerifyRangeProof` returns `true` iff the
-trie has a key greater than the last key of the list. Together with `range_single_more` and
-`range_empty_sound` (flag always `false`, and then indeed nothing is at or right of `first`) this is
-the complete statement of what `hasMore` guarantees: whenever verification succeeds,
-`hasMore = (some key of the trie is greater than the last listed key)`. -/
+/-- …and the returned `more` flag is exact: `VerifyRangeProof` returns `true` iff the trie has a key
+greater than the last key of the list.  With `range_single_more`, `range_empty_sound` and
+`range_all_sound` this is the complete statement of what `hasMore` guarantees: whenever verification
+succeeds, `hasMore` = (some key of the trie is greater than the last listed key), and `false` for the
+empty range (then nothing is at or right of `first`) and for the no-proof case. -/
 theorem range_more (A : HashAlg H) (hI : Ideal A) (rc : RCfg) (hch : rc.checkHash = true)
     (hev : rc.earlyValue = false) (hlh : rc.leafHash = true) (t : Tree H) (n : Nat) (hwf : WF t n)
     (hnz : t.NZ A) (first : Path) (hfl : first.length = n) (kvs : List (Path × H))
@@ -291,72 +299,19 @@ theorem range_more (A : HashAlg H) (hI : Ideal A) (rc : RCfg) (hch : rc.checkHas
     ∃ lastKV, kvs.getLast? = some lastKV ∧ (more = true ↔ GtIn t n lastKV.1) :=
   multi_more hI rc hch hev hlh t n hwf hnz first hfl kvs hkl P more h
 
-/-- The no-proof case (`proof == nil`: the list is claimed to be the WHOLE trie), any variant: if it
-verifies, the trie holds exactly the listed entries (every key: listed value, or absent if not listed)
-and the flag is `false`. -/
+/-- The no-proof case (`proof == nil`: the list is claimed to be the WHOLE trie): accepted ⇒ the trie
+holds exactly the listed entries and the flag is `false`. -/
 theorem range_all_sound (A : HashAlg H) (hI : Ideal A) (t : Tree H) (n : Nat) (hwf : WF t n)
     (kvs : List (Path × H)) (hkl : ∀ kv ∈ kvs, kv.1.length = n) (more : Bool)
     (h : verifyAll A (t.hash A) n kvs = RRes.ok more) :
     more = false ∧ ∀ k, k.length = n → t.get A k = (lastVal kvs k).getD A.zero :=
   all_sound hI t n hwf kvs hkl more h
 
-/-- The hypotheses `WF` / `NZ` of the theorems above are not assumptions about some abstract tree:
-the trie of ANY key/value set with keys of length `n` and non-zero values (`build`, which the real
-tries are compared against node for node) is well-formed of height `n` and holds no zero leaf. -/
-theorem trie_of_entries_wf_nz (A : HashAlg H) (n : Nat) (kvs : List (Path × H))
-    (hv : ∀ kv ∈ kvs, kv.2 ≠ A.zero) (t : Tree H) (h : build n kvs = some t) : WF t n ∧ t.NZ A :=
-  ⟨build_wf n kvs t h, build_nz n kvs t hv h⟩
-
-/-- …and it holds exactly the entries (last value of a repeated key, zero for an unlisted key). -/
-theorem trie_of_entries_get (A : HashAlg H) (n : Nat) (kvs : List (Path × H))
-    (hl : ∀ kv ∈ kvs, kv.1.length = n) (k : Path) (hk : k.length = n) :
-    Trie.get A (build n kvs) k = (lastVal kvs k).getD A.zero :=
-  get_build n kvs k hl hk
-
-/-- the honest range proof of the sibling keys 110, 111 of the example trie -/
-def gapProof : PSet HTerm :=
-  Trie.prove freeAlg false false (some exTree) [true, true, false] ++
-    Trie.prove freeAlg false false (some exTree) [true, true, true]
-
-/-- DEFECT (known finding `trie2:range:first-element-dropped-leaf-under-binary-node:false-claim-accepted`):
-without `unsetLeaf` (the code as it is; the other repairs do not matter) the range [110, 111] verifies
-with 110 — a key of the trie — left out of the list; the repaired variant rejects it and accepts the
-complete list. So the hypothesis `unsetLeaf` of `range_sound` cannot be dropped. -/
-theorem range_gap_accepted_without_unsetLeaf :
-    verifyMulti freeAlg ⟨true, false, true, true, false⟩ (exTree.hash freeAlg) [true, true, false]
-        [([true, true, true], .felt 9)] gapProof = .ok false ∧
-    exTree.get freeAlg [true, true, false] = .felt 8 ∧
-    verifyMulti freeAlg RCfg.strict (exTree.hash freeAlg) [true, true, false]
-        [([true, true, true], .felt 9)] gapProof = .err ∧
-    verifyMulti freeAlg RCfg.strict (exTree.hash freeAlg) [true, true, false]
-        [([true, true, false], .felt 8), ([true, true, true], .felt 9)] gapProof = .ok false := by
-  decide
-
--- a multi-element range with an absent first key and more entries to the right: accepted, more = true
+-- non-vacuity: a multi-element range with an absent first key and more entries to the right
 example : verifyMulti freeAlg RCfg.strict (exTree.hash freeAlg) [true, false, false]
     [([true, false, true], .felt 5), ([true, true, false], .felt 8)]
     (Trie.prove freeAlg false false (some exTree) [true, false, false] ++
       Trie.prove freeAlg false false (some exTree) [true, true, false]) = .ok true := by decide
-
-/-- DEFECT (known finding `trie2:range:single-element-forged-node-under-root-hash`): with the code as
-it is, for EVERY root, key and non-zero value the one-node set `{root ↦ Edge(key, Value v)}` makes the
-single-element range proof verify — the root plays no part. -/
-theorem range_single_forgery (A : HashAlg H) (root : H) (k : Path) (v : H) (hv : v ≠ A.zero) :
-    verifySingle A RCfg.asIs root k v [(root, PNode.edge k ⟨Tag.value, v⟩ none)] = RRes.ok false :=
-  single_forgery A root k v hv
-
-/-- DEFECT (known finding `trie2:range:empty-range-forged-node-under-root-hash`): with the code as it
-is, for EVERY root and every `first` other than 0…0 the one-node set `{root ↦ Edge(0…0, Value v)}`
-makes "no entry at or right of `first`" verify. -/
-theorem range_empty_forgery (A : HashAlg H) (root : H) (first : Path) (v : H)
-    (hne : first ≠ List.replicate first.length false) :
-    verifyEmpty A RCfg.asIs root first
-      [(root, PNode.edge (List.replicate first.length false) ⟨Tag.value, v⟩ none)] = RRes.ok false :=
-  empty_forgery A root first v hne
-
--- the repaired variant rejects both forgeries on the example trie
-example : verifySingle freeAlg RCfg.strict (exTree.hash freeAlg) [true, true, false] (.felt 666)
-    [(exTree.hash freeAlg, PNode.edge [true, true, false] ⟨Tag.value, .felt 666⟩ none)] = .err := by decide
 example : verifySingle freeAlg RCfg.strict (exTree.hash freeAlg) [true, true, false] (.felt 8)
     (Trie.prove freeAlg false false (some exTree) [true, true, false]) = .ok true := by decide
 
